@@ -66,9 +66,9 @@ SUFFIX = {
  "C13": " Also steps back between probes, near-constant timers with tolerated steps, up to 300 backward probes, readings pinned to special values (all ones, sign boundaries).",
  "C14": " Also damaged snapshots (must fail, not panic; arrays replaced by strings with multi-byte characters among the damage kinds), runs repeated from a thread-local destructor at thread exit, the calendar-date seam, a logger that refuses the crates' targets, seeding sweeps, contained set_rounds(0), Debug while unwinding / on another thread, far-along ISAAC counters, every second worker with an unwritable stderr (/dev/full), an extra build with rand_jitter std-without-log, and a Miri part: single-threaded histories of all 20 types interpreted by Miri (undefined behaviour that does not panic).",
  "C16": " Histories also contain timer_stats / test_timer / contained set_rounds(0), 2^16-collection long hauls, and the wall-clock seam.",
- "C17": " HC-128 marathons (2^27 words per twin). Texts under every formatter flag, also while unwinding / on another thread, after non-output operations; extra passes: build with --cfg fuzzing, every ALL_CAPS token of the compiled crates set as environment variable, and every ALL_CAPS string literal of their sources set in the environment of an extra BUILD; core runs prime the results buffers with public content before generate(); block marathons compare the text after every generate().",
+ "C17": " HC-128 marathons (2^27 words per twin). Texts under every formatter flag, also while unwinding / on another thread, after non-output operations; extra passes: build with --cfg fuzzing, every ALL_CAPS token of the compiled crates set as environment variable, and every ALL_CAPS string literal of their sources set in the environment of an extra BUILD; core runs prime the results buffers with public content before generate(); block marathons compare the text after every generate(); seeding sweeps compare the texts of 2^16 never-used generators per run.",
  "C18": " Configurations include -C target-cpu=native and (thorough) opt-level 1 / s with overflow checks and debug assertions split; seeding sweeps and frozen-clock histories in the corpus; other-targets pass as in C05; the real-clock constructor (on shifted calendar dates) as first step of corpus histories.",
- "C19": " Also clones of JitterRng inside schedules, near-equal and quantised private clocks, same-thread nesting through the timer callback, public block cores driven through one shared scratch block, schedules under a logger that accepts everything, a census family (2^16 collections in one process), and the real-clock constructor as an instance (did it succeed).",
+ "C19": " Also clones of JitterRng inside schedules, near-equal and quantised private clocks, same-thread nesting through the timer callback, public block cores driven through one shared scratch block, schedules under a logger that accepts everything, a census family (2^16 collections in one process), the real-clock constructor as an instance (did it succeed), and timer callbacks that unwind inside one instance's operation.",
 }
 
 
